@@ -17,7 +17,7 @@ from drive_construct import run_jobs
 FORMS = ['kv_int', 'kv_name', 'mapping_int', 'mapping_name', 'kwargs', 'kwargs', 'grades_list', 'full', 'helper', 'grades_kv', 'blade',
          'byname_full', 'byname_keys', 'byname_keys', 'byname_grades', 'byname_helper',
          'bad_length', 'bad_grade_keys', 'bad_grades']
-GRADED_FORMS = ['kv_int', 'kv_name', 'mapping_int', 'kwargs', 'grades_list', 'full', 'helper', 'byname_full', 'byname_keys', 'byname_grades', 'bad_graded_incomplete', 'bad_length', 'bad_grades']
+GRADED_FORMS = ['kv_int', 'kv_name', 'mapping_int', 'kwargs', 'grades_list', 'full', 'helper', 'byname_full', 'byname_keys', 'byname_grades', 'graded_perm', 'graded_perm', 'bad_graded_incomplete', 'bad_length', 'bad_grades']
 
 
 # value types of the supplied coefficients (the integer tag is embedded in / recovered from a value of that type)
